@@ -353,6 +353,10 @@ func genC08(seed, index uint64, tier string) *Plan {
 	cs := ChartSpec{Name: "demo", Version: "1.0.0", Values: map[string]interface{}{"a": "x"}}
 	kinds := []string{"ConfigMap", "Secret", "ServiceAccount", "Service", "Deployment", "Job", "ClusterRole", "Widget", "Gadget", "Widget", "Gadget", "Pod", "Namespace"}
 	files := []string{"a.yaml", "b.yaml", "z/c.yaml", "m.yaml"}
+	if g.Chance(0.3) {
+		// file names that sort differently byte-wise and case-folded: the order of same-kind documents follows the byte order
+		files = []string{"a.yaml", "B.yaml", "Z/c.yaml", "m.yaml", "web_config.yaml", "webConfig.yaml", "Zeta.yaml"}
+	}
 	n := 2 + g.N(10)
 	counters := map[string]int{}
 	for i := 0; i < n; i++ {
